@@ -220,6 +220,21 @@ func runC04(c c04Case) (res c04Result) {
 			}
 		}
 	}
+	// A party that completed negotiated a version inside its own configured
+	// range, whatever the peer or the relay offered.
+	for _, d := range []struct {
+		name     string
+		ok       bool
+		pt       *party
+		min, max int
+	}{{"initiator", iOK, p.I, c.Cfg.IMin, c.Cfg.IMax}, {"responder", rOK, p.R, c.Cfg.RMin, c.Cfg.RMax}} {
+		if !d.ok {
+			continue
+		}
+		if v := int(d.pt.m.VerifState().Version); v < d.min || v > d.max {
+			res.disagree = append(res.disagree, fmt.Sprintf("%s_version_%d_outside_its_range_%d_%d", d.name, v, d.min, d.max))
+		}
+	}
 	if res.bothDone {
 		si, sr := p.I.m.VerifState(), p.R.m.VerifState()
 		if si.Version != sr.Version {
